@@ -216,6 +216,13 @@ def plan (tbl : Table) (r : Req) : Except Err Plan :=
     let f := flat b.nodes
     .ok { order := dedup [] f.out, oof := b.oof || f.oof }
 
+/-- the fuel of `build_nodes_with_deps` (number of tasks + 1) is an artefact of the model; its sufficiency is
+    evaluated by the driver on every case (`oof`); `flat`'s fuel is proved sufficient below (`flat_terminates`) -/
+def BuildFuelOk (tbl : Table) (r : Req) (base : List Name) : Prop := (buildTree tbl r base).oof = false
+
+instance (tbl : Table) (r : Req) (base : List Name) : Decidable (BuildFuelOk tbl r base) := by
+  unfold BuildFuelOk; infer_instance
+
 /-! ## effects: `Task.clean`, `clean_targets`, `--forget` -/
 structure World where
   files : List Path      -- existing regular files
